@@ -386,7 +386,9 @@ __ebd_main_loop() {
 					__ebd_write_line "phases succeeded"
 				else
 					[[ -n ${error_output} ]] || error_output="ebd::${com% *} failed"
-					__ebd_write_line "phases failed ${error_output}"
+					# the reply is a single protocol line; extra lines would be
+					# read as the replies to later commands
+					__ebd_write_line "phases failed ${error_output//$'\n'/ }"
 				fi
 				;;
 			alive)
